@@ -174,13 +174,37 @@ def kill_conds_on_assign(node, state):
                         "append", "pop", "remove", "clear", "extend", "add",
                         "update", "insert", "discard", "setdefault"):
                 names.add(n.func.value.id)
-    if not names:
+    # object state (self.x) may be changed by other tasks at an await, and by
+    # mutating method calls on the attribute (a sequence generator's yields
+    # hand control to its single driver, which does not touch that state)
+    suspended = node.kind in ("stmt", "test", "for", "with_enter") and any(
+        isinstance(n, ast.Await)
+        for n in _walk_no_nested(a)) if a is not None else False
+    mutated_attrs = set()
+    if node.kind == "stmt":
+        for n in _walk_no_nested(a):
+            if isinstance(n, ast.Call) and isinstance(n.func, ast.Attribute) \
+                    and n.func.attr in ("append", "pop", "remove", "clear",
+                                        "extend", "add", "update", "insert",
+                                        "discard", "setdefault", "popleft",
+                                        "put_nowait", "get_nowait", "set") \
+                    and isinstance(n.func.value, ast.Attribute):
+                mutated_attrs.add(unparse(n.func.value))
+            if isinstance(n, (ast.Attribute, ast.Subscript)) and isinstance(
+                    getattr(n, "ctx", None), (ast.Store, ast.Del)):
+                base = n.value if isinstance(n, ast.Subscript) else n
+                mutated_attrs.add(unparse(base))
+    if not names and not suspended and not mutated_attrs:
         return state
     out = set()
     for f in state:
         if f[0] == "cond":
             toks = set(_idents(f[1]))
             if toks & names:
+                continue
+            if suspended and "self." in f[1]:
+                continue
+            if any(m in f[1] for m in mutated_attrs):
                 continue
         out.add(f)
     # facts established by simple constant assignments
